@@ -441,6 +441,27 @@ func main() {
 	onDemand := len(memos) - enumerated
 	evaluated := memos
 
+	// Vacuity guard: every context configuration must have produced contexts that were
+	// judged; a layer that silently judged nothing is a harness error, never a pass.
+	ctxEnumerated, ctxNotJudged := 0, 0
+	for k, n := range families {
+		if strings.HasPrefix(k, "ctx:") {
+			ctxEnumerated += n
+		}
+	}
+	for k, n := range counters {
+		if strings.HasPrefix(k, "context:") && strings.Contains(k, "not-judged") {
+			ctxNotJudged += n
+		}
+	}
+	if ctxEnumerated > 0 {
+		for _, lang := range contextConfigs {
+			if counters["context:judged @ "+lang] == 0 && counters["clause:crash"] == 0 {
+				vx.Fatalf("pipeline layer is vacuous: no context of configuration %q was judged (%d not judged)", lang, ctxNotJudged)
+			}
+		}
+	}
+
 	var samples []any
 	for _, i := range []int{0, len(todo) / 7, 2 * len(todo) / 7, 3 * len(todo) / 7, 4 * len(todo) / 7, 5 * len(todo) / 7, 6 * len(todo) / 7, len(todo) - 1} {
 		if i >= 0 && i < len(todo) {
@@ -470,7 +491,7 @@ func main() {
 		"leniences (statement silent): order of builders and of options; comments, veneer trails, nil checks, builder Properties/Factories; a required non-nullable reference to a constant object that is itself nullable may be covered by an option or by a constructor constant (an optional or nullable reference to a constant is NOT fixed by the schema and must be an option); constraints on assignments of non-scalar fields are not judged; a constant reference may also be covered by a constructor constant equal to its reference value",
 		"constraint operators exercised are those of grammar I (minLength, maxLength, >=, <); all other operators go through the same code path",
 		"references always use the exact case of the object name; two schemas never share a package name (Schemas are consolidated before builders are derived)",
-		"a crash (panic / fatal error) of FromAST is reported under kind `crash:` for visibility; it is property C04's subject but also violates A.2 (unresolved or cyclic reference: no builder, never a crash)",
+		"at the pipeline layer a failure of the language/final passes (re-run with builders off) is counted and not judged (C04/C06), a failure of the builder stage on schemas the passes produced is a finding; every configuration must judge at least one context (else harness error); a crash (panic / fatal error) of FromAST is reported under kind `crash:` for visibility; it is property C04's subject but also violates A.2 (unresolved or cyclic reference: no builder, never a crash)",
 	})
 }
 
